@@ -61,6 +61,11 @@ def canon(n):
             b = canon(children(callee)[0])
             return None if b is None else b + '.%s()' % nm.replace('c', '', 1) if nm.startswith('c') else b + '.%s()' % nm
         return None
+    if k == 'CallExpr' and len(children(n)) == 1:
+        # std::numeric_limits<T>::max() / min() / lowest(): a constant of the result type
+        ref = strip(children(n)[0]).get('referencedDecl') or {}
+        if ref.get('kind') == 'CXXMethodDecl' and ref.get('name') in ('max', 'min', 'lowest'):
+            return 'limit.%s<%s>' % ('min' if ref['name'] == 'lowest' else ref['name'], n.get('type') or '?')
     if k == 'UnaryOperator' and n.get('opcode') in ('*',):
         b = canon(children(n)[0])
         return None if b is None else b + '!'
